@@ -4,6 +4,7 @@ import (
 	"bytes"
 	"errors"
 	"fmt"
+	"io"
 	"os"
 	"strconv"
 	"strings"
@@ -50,12 +51,12 @@ func (C17) Gen(r *core.Rng, tier string, emit func(string)) {
 		if positions > 12 {
 			// all positions for small trees, sampled for large ones
 			for k := 0; k < 12; k++ {
-				emit(fmt.Sprintf("iter %d%s %s %s", r.Intn(positions), []string{"", "p"}[r.Intn(2)], compName(ic), dl))
+				emit(fmt.Sprintf("iter %d%s %s %s", r.Intn(positions), []string{"", "p", "e"}[r.Intn(3)], compName(ic), dl))
 			}
 			emit(fmt.Sprintf("iter %d %s %s", positions-1, compName(ic), dl))
 		} else {
 			for k := 0; k < positions; k++ {
-				emit(fmt.Sprintf("iter %d%s %s %s", k, []string{"", "p"}[r.Intn(2)], compName(ic), dl))
+				emit(fmt.Sprintf("iter %d%s %s %s", k, []string{"", "p", "e"}[r.Intn(3)], compName(ic), dl))
 			}
 		}
 	}
@@ -127,9 +128,11 @@ func (C17) RunGo(line string) string {
 	}
 	fail := -1
 	partial := false // the failing fetch hands back the first bytes of the directory together with its error (a cut body read by io.ReadAll)
+	eof := false     // the failing fetch fails with exactly io.EOF (a truncated file read through ReadAt / io.ReadFull)
 	if t[1] != "-" {
 		partial = strings.HasSuffix(t[1], "p")
-		fail, _ = strconv.Atoi(strings.TrimSuffix(t[1], "p"))
+		eof = strings.HasSuffix(t[1], "e")
+		fail, _ = strconv.Atoi(strings.TrimRight(t[1], "pe"))
 	}
 	ic := compOf(t[2])
 	dirs, _, ok := parseDirsLine(t[3:])
@@ -148,6 +151,9 @@ func (C17) RunGo(line string) string {
 		if fail >= 0 && off == failOff && length == failLen {
 			if partial && off+length <= uint64(len(ab)) {
 				return ab[off : off+length/2+1], errors.New("injected fetch failure after some bytes")
+			}
+			if eof {
+				return ab[off : off+length/2], io.EOF
 			}
 			return nil, errors.New("injected fetch failure")
 		}
@@ -179,7 +185,7 @@ func (C17) Branch(line, goOut string) string {
 	f := "fault"
 	if t[1] == "-" {
 		f = "nofault"
-	} else if t[1] == "0" || t[1] == "0p" {
+	} else if t[1] == "0" || t[1] == "0p" || t[1] == "0e" {
 		f = "rootfault"
 	}
 	return f + " " + t[2] + " " + strings.SplitN(goOut, " ", 2)[0]
